@@ -1438,16 +1438,18 @@ def getitem(a, key):
                     oob[j] = True
                     v = 0
                 contrib[j] += (v % n) * st[axx] if n else 0
-        positions = [p for p, _, _ in adv]
+        # NumPy: once an index array is present, integer scalars count as advanced indices too; the broadcast block
+        # stays in place only if all advanced indices (arrays and integers) are adjacent, otherwise it goes first
+        positions = [gi for gi, (kind, _) in enumerate(groups) if kind in ("adv", "int")]
         adjacent = positions == list(range(positions[0], positions[0] + len(positions)))
-        # ints between? numpy treats ints as advanced too for adjacency; keep the simple rule
         seq = []
         if adjacent:
+            placed = False
             for gi, (kind, payload) in enumerate(groups):
-                if kind == "adv":
-                    if gi == positions[0]:
-                        seq.append(("advblock", None))
-                else:
+                if kind in ("adv", "int") and not placed:
+                    seq.append(("advblock", None))
+                    placed = True
+                if kind != "adv":
                     seq.append((kind, payload))
         else:
             seq.append(("advblock", None))
